@@ -177,7 +177,8 @@ theorem lru_replace (g : Go.encoderlru.lru) (item tail : List Nat) (c0 : Nat) (r
   · exact hfin _ (by simp)
   · rename_i hcap
     have hn : item.length ≤ g.items[c0].length + tail.length := by
-      have h' : ¬ (Go.capOf g.items[c0] tail < (item.length : Int)) := by simpa using hcap
+      have h' := hcap   -- `<` in the source; `<=` would do as well (then the spare element is simply not used)
+      simp only [decide_eq_true_eq] at h'
       unfold Go.capOf at h'
       omega
     simp only [Go.reslice, hn, if_true, Option.bind_some]
@@ -356,7 +357,10 @@ theorem lru_put (g : Go.encoderlru.lru) (m : Lru) (h : LruRep g m) (item tail : 
         have hne : ((g.bucket.length : Int) != (g.items.length : Int)) = true := by
           have : (g.bucket.length : Int) ≠ (g.items.length : Int) := by omega
           simpa using this
-        simp [hne, lru_store g item hfull h.small]
+        have hne' : ((g.bucket.length : Int) == (g.items.length : Int)) = false := by   -- the test written with `==`
+          have : (g.bucket.length : Int) ≠ (g.items.length : Int) := by omega
+          simpa using this
+        simp [hne, hne', lru_store g item hfull h.small]
       · rw [hput]
         apply h.update _ hfull _ item
         · simp; omega
@@ -393,7 +397,8 @@ theorem lru_put (g : Go.encoderlru.lru) (m : Lru) (h : LruRep g m) (item tail : 
         rw [hbi]
         have hne : ((g.bucket.length : Int) != (g.items.length : Int)) = false := by
           rw [heq]; simp
-        simp [hne, lru_replace g item tail c0 rest hb (hlt c0 hc0) hsb]
+        have hne' : ((g.bucket.length : Int) == (g.items.length : Int)) = true := by rw [heq]; simp
+        simp [hne, hne', lru_replace g item tail c0 rest hb (hlt c0 hc0) hsb]
       · rw [hput]
         have hl : (rest ++ [c0]).length = g.bucket.length := by rw [hb]; simp
         have hmem : ∀ x, x ∈ rest ++ [c0] ↔ x ∈ g.bucket := by
